@@ -182,6 +182,14 @@ func (r *runner) corpus() {
 		// and definitions of OTHER names through l3 and its ancestors, a fork and px.AddTypes through the fork; found again
 		cat(chain, addTypes(2, 0), load(3, tn("type", "Foo::Bus")), load(3, tn("type", "Zed")), declare(2, 11), declare(1, 18), def(1, tn("type", "Other"), 8), addTypes(1, 5), addTypes(3, 2),
 			fork(3), addTypes(4, 0), load(3, tn("type", "Foo::Bus")), load(4, tn("type", "foo::bus")), load(3, tn("type", "MyAlias")), discover(3, nsPred("type")), discover(4, nsPred("type"))),
+		// the namespace clause (Properties/C12Ns.v): the history of C12_namespace_nonvacuous - `a` is looked up and bound under the
+		// namespaces x, function and type through a chain and a type-set loader, every namespace keeps its own value - and of
+		// C12_namespace_case_folded - MapKey folds the letter case of the namespace too: a binding under X answers a lookup under x
+		seq(newDep(), newParented(1), newTypeSet(2, 0), load(2, tn("function", "A")), load(3, tn("type", "a")), def(1, tn("function", "A"), 1), load(2, a), def(2, tn("type", "a"), 2),
+			def(2, a, 0), has(3, tn("function", "A")), def(2, tn("function", "A"), 2), loadEntry(3, tn("type", "a")), discover(3, allPred()), load(3, tn("x", "Foo::a")),
+			load(3, tn("function", "A")), load(3, tn("type", "a")), def(3, a, 1)),
+		seq(newDep(), def(1, tn("X", "a"), 0), load(1, a), has(1, a), load(1, tn("function", "a")), def(1, tn("function", "a"), 1), load(1, a), load(1, tn("function", "a")),
+			discover(1, nsPred("x")), discover(1, nsPred("X"))),
 	}
 	for _, h := range hs {
 		r.check(h, cf, true, "corpus")
